@@ -22,6 +22,7 @@ from pycardano.certificate import (
     StakeRegistrationAndDelegationAndVoteDelegation,
     StakeRegistrationAndVoteDelegation,
     StakeRegistrationConway,
+    UnregDRepCertificate,
     VoteDelegation,
 )
 from pycardano.coinselection import (
@@ -918,8 +919,10 @@ class TransactionBuilder:
         return results
 
     def _get_total_key_deposit(self):
-        stake_registration_certs = set()
-        stake_registration_certs_with_explicit_deposit = set()
+        """Net deposit paid by the certificates: deposits minus refunds."""
+        stake_registration_count = 0
+        explicit_deposit = 0
+        refund = 0
         stake_pool_registration_certs = set()
 
         protocol_params = self.context.protocol_param
@@ -927,7 +930,7 @@ class TransactionBuilder:
         if self.certificates:
             for cert in self.certificates:
                 if isinstance(cert, StakeRegistration):
-                    stake_registration_certs.add(cert.stake_credential.credential)
+                    stake_registration_count += 1
                 elif isinstance(
                     cert,
                     (
@@ -938,20 +941,26 @@ class TransactionBuilder:
                         StakeRegistrationAndDelegationAndVoteDelegation,
                     ),
                 ):
-                    stake_registration_certs_with_explicit_deposit.add(cert.coin)
+                    explicit_deposit += cert.coin
+                elif isinstance(cert, StakeDeregistration):
+                    refund += protocol_params.key_deposit
+                elif isinstance(
+                    cert, (StakeDeregistrationConway, UnregDRepCertificate)
+                ):
+                    refund += cert.coin
                 elif (
                     isinstance(cert, PoolRegistration)
                     and self.initial_stake_pool_registration
                 ):
                     stake_pool_registration_certs.add(cert.pool_params.operator)
 
-        stake_registration_deposit = protocol_params.key_deposit * len(
-            stake_registration_certs
-        ) + sum(stake_registration_certs_with_explicit_deposit)
+        stake_registration_deposit = (
+            protocol_params.key_deposit * stake_registration_count + explicit_deposit
+        )
         stake_pool_registration_deposit = protocol_params.pool_deposit * len(
             stake_pool_registration_certs
         )
-        return stake_registration_deposit + stake_pool_registration_deposit
+        return stake_registration_deposit + stake_pool_registration_deposit - refund
 
     def _get_total_proposal_deposit(self):
         proposal_deposit = 0
